@@ -791,7 +791,11 @@ def run_history(drv, hist, modelled, ctx=None, verbose=False):
         is_modelled = st['op'] in modelled or '*' in modelled
         model = model_req = None
         if is_modelled:
-            model, model_req, dom = drv.ask('modelx %d %s %s' % (bi, hist.get('variant', '-'), line)).split(' | ')
+            ans = drv.ask('modelx %d %s %s' % (bi, hist.get('variant', '-'), line))
+            if ans == 'bad-op':             # an operation without a single-exchange model (judged against the oracle only)
+                is_modelled = False
+            else:
+                model, model_req, dom = ans.split(' | ')
         if is_modelled and ctx is not None:
             ctx.count('theorem_domain:' + {'1 1': 'inside', '0 1': 'arguments-outside', '1 0': 'state-outside',
                                             '0 0': 'both-outside'}.get(dom, dom))
